@@ -12,4 +12,5 @@ INVARIANT KthChunk
 INVARIANT PastEndIsFeedback
 INVARIANT WholeFileLines
 INVARIANT Restored
+INVARIANT WholeFileNoOffset
 CHECK_DEADLOCK FALSE
